@@ -1325,6 +1325,32 @@ MUTANTS = [
             return
         yield chunk"""),
       (PE, """    return [fn(*args) for args in chunk]""", """    return list(map(fn, *chunk))""")),
+    M("resize-noop-compares-table-length", ["C08", "C09", "C10"], ["R-RESIZE"],
+      (RE, """            elif max_workers == self._max_workers:
+                return""", """            elif max_workers == len(self._processes):
+                return""")),
+    M("rt-table-rows-shared-fromkeys", ["C11", "C13"], ["R-RT-TABLE"],
+      (RT, """    registry = {rtype: {} for rtype in _CLEANUP_FUNCS.keys()}""", """    registry = dict.fromkeys(_CLEANUP_FUNCS, {})""")),
+    M("rt-proto-name-cut-at-first-colon", ["C11", "C13"], ["R-RT-PROTO"],
+      (RT, """                    splitted = line.strip().decode("ascii").split(":")
+                    # name can potentially contain separator symbols (for
+                    # instance folders on Windows)
+                    cmd, name, rtype = (
+                        splitted[0],
+                        ":".join(splitted[1:-1]),
+                        splitted[-1],
+                    )""", """                    msg = line.strip().decode("ascii")
+                    cmd, _, msg = msg.partition(":")
+                    name, _, rtype = msg.partition(":")""")),
+    M("rt-main-detaches-std-fds-by-number", ["C12", "C13"], ["R-RT-LOOP"],
+      (RT, """    if verbose:
+        util.debug("Main resource tracker is running")""", """    devnull = os.open(os.devnull, os.O_RDWR)
+    for std_fd in (0, 1):
+        os.dup2(devnull, std_fd)
+    if verbose:
+        util.debug("Main resource tracker is running")""")),
+    M("spawn-env-overlay-drops-empty-values", ["C18", "C20"], ["R-SPAWN-FRESH"],
+      (PR, """        self.env = {} if env is None else env""", """        self.env = {key: value for key, value in dict(env or {}).items() if value}""")),
     # ------------------------------------------------------- R-SCN-* (polarity)
     M("scn-wakeup-inverted", ["C01", "C02", "C05"], ["R-SCN-WAKEPRIM"],
       (PE, """    def wakeup(self):
@@ -2416,6 +2442,19 @@ BENIGN = [
                 raise ShutdownExecutorError(
                     "cannot schedule new futures after shutdown"
                 )""")),
+    B("benign-rt-proto-parse-with-partition", ["C11", "C12", "C13"],
+      (RT, """                    splitted = line.strip().decode("ascii").split(":")
+                    # name can potentially contain separator symbols (for
+                    # instance folders on Windows)
+                    cmd, name, rtype = (
+                        splitted[0],
+                        ":".join(splitted[1:-1]),
+                        splitted[-1],
+                    )""", """                    msg = line.strip().decode("ascii")
+                    cmd, _, msg = msg.partition(":")
+                    name, _, rtype = msg.rpartition(":")""")),
+    B("benign-env-overlay-copied", ["C18", "C20"],
+      (PR, """        self.env = {} if env is None else env""", """        self.env = dict(env or {})""")),
     B("benign-increment-spelled-out", None,
       (PE, """                    n_sentinels_sent += 1""", """                    n_sentinels_sent = n_sentinels_sent + 1"""),
       (PE, """            self._queue_count += 1""", """            self._queue_count = self._queue_count + 1"""),
